@@ -237,7 +237,9 @@ def stack_effects():
     opargs = list(range(0, 300)) + [511, 512, 1000, 1023, 1024, 4095, 4096, 65535, 65536, 65537, 70000, 2**20 + 5, 2**24 + 3, 2**31 - 1]
     for name, op in opcode.opmap.items():
         row = []
-        if op < opcode.HAVE_ARGUMENT and V < (3, 12):
+        hasarg = getattr(opcode, 'hasarg', None)
+        noarg = (op not in hasarg) if hasarg is not None else (op < opcode.HAVE_ARGUMENT)
+        if noarg:
             try:
                 row.append([None, dis.stack_effect(op)])
             except ValueError:
